@@ -46,6 +46,25 @@ NEEDS = {
     "C16b": "leaving the context while the saver is inside a save: asyncio.shield keeps the inner save running (same idea as the first C16 seed, found independently)",
     "C17b": "a line longer than the StreamReader limit followed by further reads: the overrun handler drains err.consumed bytes, leaving the stream inside a line",
     "C18b": "more than 100 broker messages before a read: the receive queue got maxsize=100 and put_nowait raises QueueFull inside the receive task",
+    # third round: each change had to be disguised as an optimisation, a hardening, a refactoring or support for a firmware feature
+    "C01c": "a payload containing a character str.isprintable() rejects (tab, no-break space, ESC): the decoder now filters 'line noise' before splitting",
+    "C02c": "two lines on one schema: a legal id request with child c, then another internal message with the same child c: a per-schema cache keyed (child, command) skips the cross-field rule",
+    "C03c": "2.2 only: a known node whose stored protocol_version AwesomeVersion cannot compare ('', 'unknown', '2.3.2-beta 1'), then its heartbeat response: AwesomeVersionCompareException escapes",
+    "C04c": "node presentation, child presentation, node presentation again, then a set/req for that child: a flat (node, child) index on the gateway still holds the orphaned child",
+    "C05c": "1.5 rules accept internal type 15-17 (filling a class-level handler table the 1.4 and 1.5 classes share), then 1.4 rules become active (lower report or another gateway): the type is still accepted",
+    "C06c": "a node flagged for reboot repeats exactly the value already stored: the new 'nothing to update' early return also skips the reboot command",
+    "C07c": "wake, buffered set, node re-presentation (fresh Node, sleeping False), wake: setting the flag moved into the release, which returns early 'the first time a node says it sleeps'",
+    "C08c": "a release write that fails with a TransportError other than TransportFailedError: the entry is popped before the write and the rollback only catches TransportFailedError",
+    "C09c": "2.2, two buffered keys, a send for the not yet written key during the suspended release write: node.sleeping is False for the duration of the release (same idea as C09b, found independently)",
+    "C10c": "2.x: a known node with an outstanding request (missing child), its node presentation, then the missing child again: the marker is only cleared for unknown nodes",
+    "C11c": "a registry into which a lower id was inserted after a higher one (static ids, file order): next(reversed(nodes)) + 1 hands out an id that is taken",
+    "C12c": "2.x: Gateway.send of an I_PRESENTATION request while a marker for that node is pending: returns without writing, parking or failing (same idea as C12b)",
+    "C13c": "a node whose stored type is 0: the table-driven legacy defaults use `value or default` after the key rename (same effect as C13b)",
+    "C14c": "a node or child record that is a non-empty JSON string or a list of non-pairs: the pre_load hook now copies with dict(data), which raises ValueError",
+    "C16c": "leaving the context while the saver is inside a save: asyncio.shield (third independent find of this change)",
+    "C17c": "a stream that ends mid-line with an invalid UTF-8 tail: the TransportReadError constructor now decodes the partial bytes for its message",
+    "C18c": "a read already waiting on the empty queue when the broker error arrives: the error is no longer queued, only a flag is set for later reads",
+    "C19c": "S_HEATER/S_CUSTOM child and a value type listed for it in 1.4 but not later (same change as C19b, found independently)",
     "C19b": "a child of type S_HEATER / S_CUSTOM and a set whose value type the 1.4 table lists for it but newer tables do not (or vice versa): shared handle_set consults the per-version table",
 }
 
